@@ -377,7 +377,12 @@ def run(ctx):
         cases = uniq
         jobs = _jobs(ctx, cases)
         with mp.get_context("fork").Pool(16) as pool:
-            results = pool.map(_work, jobs, chunksize=8)
+            # the directed searches are long jobs: one per task, started first
+            jobs.sort(key=lambda j: 0 if j.get("directed") else 1)
+            nd = sum(1 for j in jobs if j.get("directed"))
+            ar = pool.map_async(_work, jobs[:nd], chunksize=1)
+            rest = pool.map(_work, jobs[nd:], chunksize=8)
+            results = ar.get() + rest
         groups = {}
         recs = []
         for j, res in zip(jobs, results):
